@@ -23,7 +23,8 @@ pub const G_SINCE: usize = 1;
 pub const G_CAP: usize = 2;
 pub const G_SEQ: usize = 3;
 pub const G_BLOCK: usize = 4;
-const GROUP_NAMES: [&str; 5] = ["time", "since", "cap", "seq", "block"];
+pub const G_RECHECK: usize = 5;
+const GROUP_NAMES: [&str; 6] = ["time", "since", "cap", "seq", "block", "recheck"];
 
 pub struct Sink {
     pub files: Vec<CaseFile>,
@@ -33,7 +34,7 @@ pub struct Sink {
     pub samples: Vec<Value>,
     pub distinct: BTreeSet<String>,
     pub evaluations: u64,
-    counters: [usize; 5],
+    counters: [usize; 6],
     /// replay mode: (stream, index) of the only case whose outcome is printed
     pub only: Option<(String, u64)>,
     pub replay_failed: bool,
@@ -50,6 +51,7 @@ impl Sink {
                 cf.group("cap", "cap_case", "check_cap");
                 cf.group("seq", "seq_case", "check_seq");
                 cf.group("block", "block_case", "check_block");
+                cf.group("recheck", "recheck_case", "check_recheck_case");
                 cf
             })
             .collect();
@@ -61,7 +63,7 @@ impl Sink {
             samples: vec![],
             distinct: BTreeSet::new(),
             evaluations: 0,
-            counters: [0; 5],
+            counters: [0; 6],
             only,
             replay_failed: false,
         }
